@@ -58,6 +58,10 @@ type insert struct {
 	metadata bytemap.ByteMap
 	offset   wal.Offset
 	source   int
+	// additionalVals are further values of the same WAL entry (array values),
+	// they have to be applied together with vals so that the entry's offset
+	// never gets flushed with only part of the entry.
+	additionalVals []encoding.TSParams
 }
 
 type rowStore struct {
@@ -292,6 +296,9 @@ func (rs *rowStore) processInserts(offsetsBySource common.OffsetsBySource, stop 
 			ms.offsetChanged = true
 			if insert.key != nil {
 				ms.tree.Update(insert.key, nil, insert.vals, insert.metadata)
+				for _, additionalVals := range insert.additionalVals {
+					ms.tree.Update(insert.key, nil, additionalVals, insert.metadata)
+				}
 				rs.t.updateHighWaterMarkMemory(insert.vals.TimeInt())
 			}
 			rs.mx.Unlock()
